@@ -38,20 +38,32 @@ Flavours == {op \in AllOps : OpInfo(op).c \in {"load", "store", "aload", "astore
 
 \* one call of flavour op at address a with operand v (and second operand v2 for cmpxchg = replacement;
 \* its expected operand is what the cell holds, so the exchange happens), on host h with configuration e
-Eval(op, h, e, a, v, v2) ==
+EvalOn(M0, op, h, e, a, v, v2) ==
     LET i == OpInfo(op)
         w == i.x
-        old == LoadValue(h, e, Get(Mem0, a, w))
+        old == LoadValue(h, e, Get(M0, a, w))
         ext(b) == IF i.c = "load" /\ i.o = "s" THEN ExtendS(b, i.k) ELSE ExtendU(b, i.k)
-    IN  CASE i.c \in {"load", "aload"} -> [mem |-> Mem0, ret |-> ext(old)]
-          [] i.c \in {"store", "astore"} -> [mem |-> Put(Mem0, a, StoreImage(h, e, Wrap(v, w))), ret |-> <<>>]
+    IN  CASE i.c \in {"load", "aload"} -> [mem |-> M0, ret |-> ext(old)]
+          [] i.c \in {"store", "astore"} -> [mem |-> Put(M0, a, StoreImage(h, e, Wrap(v, w))), ret |-> <<>>]
           [] i.c = "armw" ->
               LET arg == Wrap(v, w)
                   new == CASE i.o = "add" -> Add(old, arg) [] i.o = "sub" -> Sub(old, arg) [] i.o = "and" -> WAnd(old, arg)
                            [] i.o = "or" -> WOr(old, arg) [] i.o = "xor" -> WXor(old, arg) [] i.o = "xchg" -> arg
-              IN  [mem |-> Put(Mem0, a, StoreImage(h, e, new)), ret |-> ExtendU(old, i.k)]
-          [] i.c = "acmpxchg" -> [mem |-> Put(Mem0, a, StoreImage(h, e, Wrap(v2, w))), ret |-> ExtendU(old, i.k)]
+              IN  [mem |-> Put(M0, a, StoreImage(h, e, new)), ret |-> ExtendU(old, i.k)]
+          [] i.c = "acmpxchg" -> [mem |-> Put(M0, a, StoreImage(h, e, Wrap(v2, w))), ret |-> ExtendU(old, i.k)]
 
+Eval(op, h, e, a, v, v2) == EvalOn(Mem0, op, h, e, a, v, v2)
+\* a load, a store of ANOTHER width over (part of) the same bytes, the same load again - all at one constant address, as one piece of
+\* straight-line code: memory is bytes, so the second load sees what the store left (in configuration e the store leaves its image
+\* reversed, and the load reverses what it finds: both predicted here byte by byte)
+EvalSeq(ld, st, h, e, a, v) ==
+    LET r1 == EvalOn(Mem0, ld, h, e, a, v, v)
+        m2 == EvalOn(Mem0, st, h, e, a, v, v).mem
+        r3 == EvalOn(m2, ld, h, e, a, v, v)
+    IN  [mem |-> m2, ret |-> r1.ret \o r3.ret]
+SeqLoads == {"i32.load16_u", "i32.load", "i64.load32_u", "i64.load", "i32.load8_u", "i64.load16_s", "i64.load8_s"}
+SeqStores == {"i32.store", "i32.store16", "i64.store", "i64.store32", "i32.store8", "i64.store8", "i64.store16"}
+SeqCases == {<<ld, st, e, a>> : ld \in SeqLoads, st \in SeqStores, e \in {"LE", "BE"}, a \in {0, 8}}
 \* the little-endian image the specification prescribes, independent of h and e
 SpecImage(op, a, v, v2) == Eval(op, "LE", "LE", a, v, v2).mem
 
@@ -85,7 +97,12 @@ Predict == (k = 1) =>
                                                    r == Eval(c[1], "LE", c[2], c[3], ValOf(c[1]), Val2Of(c[1]))
                                                IN <<[op |-> c[1], e |-> c[2], a |-> c[3], v |-> ValOf(c[1]), v2 |-> Val2Of(c[1]),
                                                      mem |-> r.mem, ret |-> r.ret, kind |-> OpInfo(c[1]).c]>> \o Sq(R \ {c})
-        IN Sq(S) \o
+            RECURSIVE Sq2(_)
+            Sq2(R) == IF R = {} THEN <<>> ELSE LET c == CHOOSE c \in R : TRUE
+                                                    r == EvalSeq(c[1], c[2], "LE", c[3], c[4], ValOf(c[2]))
+                                                IN <<[op |-> c[1], op2 |-> c[2], e |-> c[3], a |-> c[4], v |-> ValOf(c[2]), v2 |-> <<>>,
+                                                      mem |-> r.mem, ret |-> r.ret, kind |-> "seq"]>> \o Sq2(R \ {c})
+        IN Sq(S) \o Sq2({c \in SeqCases : OpInfo(c[1]).x # OpInfo(c[2]).x}) \o
            \* the translator's own reader of float immediates (buffer.h) in both configurations
            [j \in 1..4 |-> LET e == IF j <= 2 THEN "LE" ELSE "BE"  w == IF j % 2 = 1 THEN 4 ELSE 8 IN
               [op |-> IF w = 4 THEN "bufferReadF32" ELSE "bufferReadF64", e |-> e, a |-> 0, v |-> Wrap(Val8, w), v2 |-> <<>>,
